@@ -25,7 +25,11 @@ import (
 	"google.golang.org/grpc/status"
 )
 
-func init() { props["C07D"] = c07d{} }
+func init() {
+	props["C07D"] = c07d{}
+	props["C02D"] = c07d{} // the same sub-check folded into C02 and C04 (clause 2: durability / atomicity)
+	props["C04D"] = c07d{}
+}
 
 type c07d struct{}
 
